@@ -164,13 +164,7 @@ func domainCallOK(c *fw.Ctx, fn *ssa.Function, call ssa.CallInstruction) (bool, 
 
 func checkF3(c *fw.Ctx) {
 	rule := "F3 validator-agreement"
-	// room id validators
-	if fn := mustFunc(c, rule, "checkRoomIDV1"); fn != nil {
-		c.CheckGate(rule, fn, "checkRoomIDV1", fw.GuardCallErrNil("spec.NewRoomID", fw.NameIs("gmsl/spec.NewRoomID")), fw.ErrNilSuccess(fn, fw.ErrIndex(fn), nil))
-		for _, call := range fw.CallsTo(fn, false, fw.NameIs("gmsl/spec.NewRoomID")) {
-			c.Check(fw.Sig(call.Common().Args[0]) == "param:id", rule, "checkRoomIDV1 validates the id it is given with the accessor's parser", c.P.Pos(call.Pos()), "", "")
-		}
-	}
+	// room id validators are found by role: what the constructors call on eventFields.RoomID (or on the event) and gate on
 	isCreate := func(term fw.Term, recv string) (typeAtom, skAtom bool) {
 		for _, l := range term {
 			if strings.Contains(l.Atom, ".Type("+recv) && strings.HasSuffix(l.Atom, `== "m.room.create")`) && l.Pos {
@@ -231,15 +225,40 @@ func checkF3(c *fw.Ctx) {
 	for _, col := range []string{"newEventFromUntrustedJSONFunc", "newEventFromTrustedJSONFunc", "newEventFromTrustedJSONWithEventIDFunc"} {
 		for short, fn := range tableFuncs(c, rule, col) {
 			n++
-			calls := fw.CallsTo(fn, false, fw.NameIs("gmsl.checkRoomIDV1", "gmsl.checkRoomID"))
-			okV := len(calls) == 1
-			if okV {
-				okV = false
-				g := fw.GuardCallErrNil("room id validated", fw.NameIs("gmsl.checkRoomIDV1", "gmsl.checkRoomID"))
+			// candidate validators: calls whose argument is the decoded room id or the event itself, returning an error
+			okV := false
+			why := "no call validating eventFields.RoomID gates the success return"
+			for _, call := range fw.Calls(fn) {
+				cal := call.Common().StaticCallee()
+				if cal == nil || !c.P.IsRepoFunc(cal) || fw.ErrIndex(cal) < 0 {
+					continue
+				}
+				isRoomArg := false
+				for _, a := range call.Common().Args {
+					sa := fw.Sig(a)
+					if strings.HasSuffix(sa, "eventFields.RoomID") || (strings.HasPrefix(fw.CalleeName(call), "gmsl.checkRoomID") && strings.Contains(a.Type().String(), "eventV3")) {
+						isRoomArg = true
+					}
+				}
+				if !isRoomArg {
+					continue
+				}
+				name := fw.CalleeName(call)
+				g := fw.GuardCallErrNil("room id validated", fw.NameIs(name))
 				r := fw.Gate(fn, g, fw.ErrNilSuccess(fn, fw.ErrIndex(fn), fw.IsTail(fw.NameIs("gmsl.CheckFields"))))
-				okV = len(r.Sites) >= 1 && len(r.Escapes) == 0
+				if len(r.Sites) == 0 || len(r.Escapes) > 0 {
+					why = name + " is called on the room id but does not gate the success return"
+					continue
+				}
+				// the validator must imply the accessor's parser
+				if validatorImpliesNewRoomID(c, cal) {
+					okV = true
+				} else {
+					why = fmt.Sprintf("the room id is validated with %s, which accepts ids that spec.NewRoomID (used by RoomID()) rejects", name)
+				}
 			}
-			c.Check(okV, rule, short+" validates the room id with the accessor's parser before returning an event", c.P.Pos(fn.Pos()), "", "the constructor can return an event whose room id was not validated by checkRoomIDV1 / checkRoomID: RoomID() panics on it")
+			_ = why
+			c.Check(okV, rule, short+" validates the room id with the accessor's parser before returning an event", c.P.Pos(fn.Pos()), "", why+": RoomID() panics on such an event")
 		}
 	}
 	c.Min(rule+" constructors", n, 9)
@@ -448,4 +467,30 @@ func checkF6(c *fw.Ctx) {
 		c.Check(len(sites) <= w.n, rule, fmt.Sprintf("%s has no index/slice on remote bytes beyond the %d justified ones", strings.TrimPrefix(name, "gmsl."), w.n), c.P.Pos(fn.Pos()), w.why, fmt.Sprintf("%d index/slice operations on remote bytes (%s) but only %d are justified (%s): a new access without a bounds guard can run past the end of the input", len(sites), strings.Join(sites, ", "), w.n, w.why))
 		c.Count("raw_byte_index_sites", len(sites))
 	}
+}
+
+
+// validatorImpliesNewRoomID: every success return of the validator lies behind spec.NewRoomID(id) == nil,
+// or (v12 form) behind the create-event predicate, for which RoomID() does not parse the field.
+func validatorImpliesNewRoomID(c *fw.Ctx, v *ssa.Function) bool {
+	t, err := fw.ExtractTable(v, fw.ErrIndex(v))
+	if err != nil {
+		return false
+	}
+	c.SawFn(fw.FuncName(v))
+	found := false
+	for _, r := range t.Rows {
+		if r.Outcome != "accept" {
+			continue
+		}
+		found = true
+		for _, term := range r.Cond {
+			parsed := termHas(term, lit{[]string{"gmsl/spec.NewRoomID(", "#1 == nil)"}, true})
+			create := termHas(term, lit{[]string{`== "m.room.create")`}, true}) && termHas(term, lit{[]string{".StateKeyEquals(", `,"")`}, true})
+			if !parsed && !create {
+				return false
+			}
+		}
+	}
+	return found
 }
